@@ -12,19 +12,19 @@ import (
 )
 
 type FuncResult struct {
-	Key        string
-	Pkg        string
-	VC         *VC
+	Key         string
+	Pkg         string
+	VC          *VC
 	OutOfSubset string // non-empty: reason; the function is not counted as proved
-	StubsUsed  []string
-	Inlined    []string
-	Callees    []string
-	Notes      []string
-	Contract   *FuncContract
-	ParamSyms  map[string]string // input symbol -> description, for replay
-	StrNames   map[string]string
-	Passes     int
-	SafetyOnly bool
+	StubsUsed   []string
+	Inlined     []string
+	Callees     []string
+	Notes       []string
+	Contract    *FuncContract
+	ParamSyms   map[string]string // input symbol -> description, for replay
+	StrNames    map[string]string
+	Passes      int
+	SafetyOnly  bool
 }
 
 func fullKey(pkg, key string) string { return pkg + "::" + key }
@@ -80,6 +80,7 @@ func VerifyFunc(ld *Loader, specs *Specs, fk string, safetyOnly bool) (res *Func
 			res.Callees = sortedKeys(ex.calleesUsed)
 			res.Notes = ex.notes
 			res.StrNames = ex.strNames
+			ex.addHeapModelSyms(fn)
 			res.ParamSyms = map[string]string{}
 			for i, s := range ex.modelSyms {
 				res.ParamSyms[s] = ex.modelLbls[i]
@@ -383,3 +384,105 @@ func VerifyLemma(ld *Loader, specs *Specs, lm *Lemma) *FuncResult {
 func describeType(t types.Type) string { return typeName(t) }
 
 func sortStrings(s []string) []string { sort.Strings(s); return s }
+
+// addHeapModelSyms names, for the replay, the entry-heap contents reachable from the parameters:
+// fields of pointed-to structs (one level of pointers, nested structs) and the first elements of slices.
+func (ex *Exec) addHeapModelSyms(fn *ssa.Function) {
+	const maxElems = 6
+	alias := func(label string, t Term) {
+		if t.Sort != SInt && t.Sort != SBool && t.Sort != SStr {
+			return
+		}
+		ex.vc.fresh++
+		name := fmt.Sprintf("mv!%d", ex.vc.fresh)
+		d := &decl{name: name, kind: dDef, text: fmt.Sprintf("(define-fun %s () %s %s)", name, t.Sort, t.S), deps: symbolsOf(t.S), seq: 0}
+		ex.vc.decls = append(ex.vc.decls, d)
+		ex.vc.byName[name] = d
+		ex.modelSyms = append(ex.modelSyms, name)
+		ex.modelLbls = append(ex.modelLbls, label)
+	}
+	entry := ex.entry
+	var walk func(label string, v Value, t types.Type, depth int)
+	walk = func(label string, v Value, t types.Type, depth int) {
+		if depth > 3 {
+			return
+		}
+		switch x := v.(type) {
+		case StructV:
+			st := t.Underlying().(*types.Struct)
+			for i, f := range x.F {
+				walk(label+"."+st.Field(i).Name(), f, st.Field(i).Type(), depth)
+			}
+		case SliceV:
+			et := elemTypeOf(t)
+			if et == nil {
+				return
+			}
+			if label != "" && !strings.Contains(label, "#") {
+				// header parts of slices inside heap objects are not plain symbols: alias them
+				alias(label+"#len", x.Len)
+				alias(label+"#cap", x.Cap)
+				alias(label+"#ptr", x.Ptr)
+			}
+			for k := 0; k < maxElems; k++ {
+				p := PtrV{Kind: pElem, Ref: x.Ptr, Idx: Idx(x.Off, I(int64(k))), Root: et}
+				var ev Value
+				if err := runGuarded(func() { ev = ex.loadIn(entry, p) }); err != nil {
+					return
+				}
+				switch e := ev.(type) {
+				case Sc:
+					alias(fmt.Sprintf("%s[%d]", label, k), e.T)
+				default:
+					walk(fmt.Sprintf("%s[%d]", label, k), ev, et, depth+1)
+				}
+			}
+		case PtrV:
+			if x.Kind != pObj || len(x.Path) != 0 {
+				return
+			}
+			pt, ok := t.Underlying().(*types.Pointer)
+			if !ok || !transparentStruct(pt.Elem()) {
+				return
+			}
+			var pv Value
+			if err := runGuarded(func() { pv = ex.loadIn(entry, x) }); err != nil {
+				return
+			}
+			walk(label, pv, pt.Elem(), depth+1)
+		case Sc:
+			if label != "" {
+				alias(label, x.T)
+			}
+		}
+	}
+	for i, p := range fn.Params {
+		switch v := ex.top.params[i].(type) {
+		case PtrV:
+			walk(p.Name(), v, p.Type(), 0)
+		case SliceV:
+			et := elemTypeOf(p.Type())
+			if et == nil {
+				continue
+			}
+			for k := 0; k < maxElems; k++ {
+				pp := PtrV{Kind: pElem, Ref: v.Ptr, Idx: Idx(v.Off, I(int64(k))), Root: et}
+				var ev Value
+				if err := runGuarded(func() { ev = ex.loadIn(entry, pp) }); err != nil {
+					break
+				}
+				if e, ok := ev.(Sc); ok {
+					alias(fmt.Sprintf("%s[%d]", p.Name(), k), e.T)
+				}
+			}
+		case StructV:
+			// struct passed by value: slices inside it
+			st := p.Type().Underlying().(*types.Struct)
+			for fi, f := range v.F {
+				if sv, ok := f.(SliceV); ok {
+					walk(p.Name()+"."+st.Field(fi).Name(), sv, st.Field(fi).Type(), 1)
+				}
+			}
+		}
+	}
+}
